@@ -205,7 +205,52 @@ macro_rules! impl_ops {
                     }
                     fn frames(&self, c: &str, m: &str, line: usize, file: Option<&str>, params: Option<&str>) -> String {
                         let f = mk_frame(c, m, line, file, params);
-                        r_frames(self.remap_frame(&f))
+                        let v: Vec<String> = self.remap_frame(&f).map(|x| r_frame(&x)).collect();
+                        // every other way of driving the frame iterator agrees with `next()`
+                        let n = v.len();
+                        let (lo, hi) = self.remap_frame(&f).size_hint();
+                        if lo > n || hi.map_or(false, |h| h < n) {
+                            return format!("ITER-MISMATCH size_hint ({}, {:?}) for {} frames", lo, hi, n);
+                        }
+                        if self.remap_frame(&f).count() != n {
+                            return "ITER-MISMATCH count".into();
+                        }
+                        if self.remap_frame(&f).last().map(|x| r_frame(&x)) != v.last().cloned() {
+                            return "ITER-MISMATCH last".into();
+                        }
+                        if n <= 2000 {
+                            let folded = self.remap_frame(&f).fold(Vec::new(), |mut a, x| {
+                                a.push(r_frame(&x));
+                                a
+                            });
+                            if folded != v {
+                                return "ITER-MISMATCH fold".into();
+                            }
+                            for k in [0usize, 1, 2, n.saturating_sub(1), n, n + 1] {
+                                if self.remap_frame(&f).nth(k).map(|x| r_frame(&x)) != v.get(k).cloned() {
+                                    return format!("ITER-MISMATCH nth({})", k);
+                                }
+                                if self.remap_frame(&f).skip(k).count() != n.saturating_sub(k) {
+                                    return format!("ITER-MISMATCH skip({}).count", k);
+                                }
+                            }
+                            let a: Vec<String> = self.remap_frame(&f).step_by(2).map(|x| r_frame(&x)).collect();
+                            let b: Vec<String> = v.iter().step_by(2).cloned().collect();
+                            if a != b {
+                                return "ITER-MISMATCH step_by(2)".into();
+                            }
+                            let mut it = self.remap_frame(&f);
+                            let mut c = 0usize;
+                            while it.next().is_some() {
+                                c += 1;
+                            }
+                            // (the iterators are not fused: on a corrupted file an entry that cannot be
+                            // read ends `collect`, and a later `next` may still yield — not asserted)
+                            if c != n {
+                                return "ITER-MISMATCH manual loop".into();
+                            }
+                        }
+                        format!("[{}]", v.join(";"))
                     }
                     fn thr(&self, c: &str, msg: Option<&str>) -> String {
                         let t = match msg {
